@@ -6,6 +6,18 @@ BASE = "cd /repo && /venv/bin/python -m pytest -ra -q -p no:cacheprovider --time
 
 # id -> (engine, level, technique, level text, level note, design ref)
 CHECKS = {
+ "C07": ("LX", "exploration",
+         "bounded-exhaustive enumeration of goal x start x tolerance-setting x solver-path lattices on arms in four structural states, plus complete enumeration of restart-vector sequences (scripted random source); errors recomputed independently",
+         "Per arm and state: goals from in-limit joint vectors (generic, 0.15 rad from a limit, on a limit), starts (exact, +-0.02 rad on every joint, far, zeros, current, a full turn outside the limits), three tolerance settings with position != orientation tolerance, both solver paths; tolerance-boundary goals (the only inputs that expose a tolerance swap); unreachable goals; all 9 restart-vector sequences of length 2 over a 3-vector menu. Success => recomputed errors within the matching tolerances, inside limits, state = solution; failure => coherent state; local convergence on the stated sub-domain.",
+         "Finite lattices; the solver's joint vectors are environment answers; restarts fully scripted. Free solver on chains with prismatic joints excluded for unreachable goals (joint values leave the property's [-2pi,2pi] range).", "DESIGN 4/C07"),
+ "C12": ("LX", "exploration",
+         "bounded-exhaustive enumeration: all ordered frame triples x complete 6-vector basis x {Screw, Wrench} x every operand form on both sides of every operator, against independent adjoint formulas",
+         "512 (quick) / 1728 (thorough) frame triples x basis+generic vectors for the change-of-frame group action, pairing invariance, point-force moments, cross-frame sums/differences, and the vector-space laws over 19 operand forms (Python/NumPy scalars, flat and column arrays of float and int dtype, objects) reaching every isinstance branch and fall-through of the overloads.",
+         "Finite frame palette kept >= 1e-3 away from half-turn relative rotations (KF1 territory) and from the 1e-6 cut-off; linear maps decided on complete bases.", "DESIGN 4/C12"),
+ "C18": ("LX", "exploration",
+         "bounded-exhaustive enumeration: all ordered pose pairs/triples of a palette off the origin, all step sizes/counts, every sphere point count, an angle lattice in four operand forms, against independent NumPy relations",
+         "11 poses (|p| up to 10, angles up to pi-1e-3, none through the world origin) -> all pairs/triples for mirror, midpoints, lookAt, planes, metric axioms, gap closing, straight paths, twists; every point count 1..2000 (thorough) for both sphere samplers; 318 angles as scalars/arrays/6-vectors/tm for angle wrapping; chain and numerical Jacobians against analytic ones.",
+         "Finite palettes; closeArcGap direction claimed only for un-rotated origins (the repository's own test pins the other behaviour); helpers outside the statement's list are not checked.", "DESIGN 4/C18"),
  "C06": ("LX", "exploration",
          "bounded-exhaustive enumeration: arms x all structural histories (move / tool change / restore, length <= 2) x joint-vector palette x complete rate and wrench bases; Jacobians compared with Richardson differences of the library's FK and with an independent product-of-exponentials reference",
          "At each of 31 structurally distinct states per arm and 4-5 joint vectors: space Jacobian = derivative of FK (Richardson, steps 1e-4/2e-4, 1e-6 relative), body / link (every index) / tool-aligned / numerical variants after the change of frame, velocity = J qd, statics = J^T F with power balance on the complete bases, inverse statics where sigma_min >= 0.05, link-weight moments on arms with inertial data.",
